@@ -176,6 +176,18 @@ class Engine:
         """-> [(True, st_true), (False, st_false)] restricted to feasible sides; cond z3 Bool or python bool"""
         if not is_sym(cond):
             return [(bool(cond), st)]
+        tie = getattr(self, "_float_ties", {}).get(cond.get_id()) if hasattr(cond, "get_id") else None
+        if tie is not None:
+            # an order comparison of floats under A-FLOAT's tie rule: three explicit cases instead of a nested if-then-else (the
+            # non-linear queries are far more stable that way): equal (both outcomes), and the two strict orders
+            a_, b_, r_ = tie
+            out = []
+            for side, cs in ((True, [a_ == b_]), (False, [a_ == b_]), (True, [a_ != b_, r_]), (False, [a_ != b_, z3.Not(r_)])):
+                s2 = self.fork(st)
+                s2.pc += cs
+                if self.feasible(s2.pc):
+                    out.append((side, s2))
+            return out
         cond = z3.simplify(cond)
         if z3.is_true(cond):
             return [(True, st)]
@@ -965,7 +977,17 @@ class Engine:
                 pass
             else:
                 raise Unsupported(f"order comparison of {a!r} and {b!r}")
-        return {ast.Lt: lambda: a < b, ast.LtE: lambda: a <= b, ast.Gt: lambda: a > b, ast.GtE: lambda: a >= b}[type(op)]()
+        r = {ast.Lt: lambda: a < b, ast.LtE: lambda: a <= b, ast.Gt: lambda: a > b, ast.GtE: lambda: a >= b}[type(op)]()
+        if getattr(self, "float_cmp_unstable", False) and any(is_sym(x) and z3.is_real(x) for x in (a, b)):
+            # A-FLOAT refinement: two floats that are mathematically equal may compare either way (each was computed with its own
+            # rounding error); everywhere else the comparison is exact
+            e = z3.If(to_z3(a) == to_z3(b), self.sym_bool("float_tie"), r)
+            if not hasattr(self, "_float_ties"):
+                self._float_ties = {}
+            self._float_ties[e.get_id()] = (to_z3(a), to_z3(b), r)
+            self._float_tie_keep = getattr(self, "_float_tie_keep", []) + [e]      # keeps the ids alive
+            return e
+        return r
 
     def eq(self, a, b, s=None):
         if isinstance(a, Rec):
